@@ -97,7 +97,7 @@ theorem src_reg (st : St) {d s : GReg} (hs : Shape s) (hb : s.bits = d.bits) (hs
   spec := fun m addr len asz f h => by
     have hn := nextIp_2 m addr len asz d (.reg s) h
     constructor <;>
-    · simp only [alu2, ins2, Opnd.bits, readOp, writeOp, orTrap, done, bind, Option.bind, pure, ↓reduceIte, Option.getD,
+    · simp only [alu2, ins2, Opnd.bits, srcVal, readOp, writeOp, orTrap, done, bind, Option.bind, pure, ↓reduceIte, Option.getD,
         Bool.false_eq_true] at hn ⊢
       rw [hn]
   read := fun _ => rfl
@@ -117,7 +117,7 @@ theorem src_imm (st : St) {d : GReg} (hd : Shape d) (v bytes : Nat) (hb : 8 * by
     have hx : X86.sext (BitVec.ofNat (8 * bytes) v) d.bits = BitVec.ofNat d.bits v := by
       simp only [X86.sext]; rw [hb]; simp
     constructor <;>
-    · simp only [alu2, ins2, Opnd.bits, readOp, writeOp, orTrap, done, bind, Option.bind, pure, ↓reduceIte, Option.getD,
+    · simp only [alu2, ins2, Opnd.bits, srcVal, readOp, writeOp, orTrap, done, bind, Option.bind, pure, ↓reduceIte, Option.getD,
         Bool.false_eq_true, hx] at hn ⊢
       rw [hn]
   read := fun _ => rfl
